@@ -308,6 +308,26 @@ def gen_cases(rng, tier):
         c["updates"] = rng.choice([[], [], [2]])
         c["update_params"] = bool(c["updates"]) and c["update_params"]
         cases.append(_with_update_predict(rng, c))
+    # revised / late observations: the batch passed last is a slice of data seen before that ends
+    # BEFORE (or exactly at) the current cutoff; the cutoff is the end of the data passed last.
+    # update_params=False (a refit on all remembered data would move the cutoff to their end)
+    kinds = ([_fix_reg(_leaf(rng, [t])) for t in LEAVES for _ in range(3 if quick else 20)]
+             + [_fc(rng, w) for w in ["ensemble", "ttf", "multiplex", "stack", "grid"]
+                for _ in range(2 if quick else 12)])
+    for i, fc in enumerate(kinds):
+        c = _case(rng, fc)
+        c["updates"] = rng.choice([[], [2], [3, 1]])
+        c["update_params"] = False
+        if _needs_fh_at_fit(fc):
+            c["fh_kind"] = "rel"
+        observed = c["n"] + sum(c["updates"])
+        # the data up to the new cutoff must still be enough for the forecaster (what `_min_n` asks of
+        # a training series: a whole season / window for the naive strategies, ...)
+        lo = max(2, _min_n(fc), observed - 7)
+        end = observed if (i % 4 == 0 or lo > observed - 1) else rng.randint(lo, observed - 1)
+        m = rng.randint(1, min(4, end - 1))
+        c["late"] = {"a": end - m, "m": m}
+        cases.append(c)
     if not quick:
         cases += exhaustive_cases()
     for c in cases:                 # special cases above overwrite `fh`: keep `fh_given` consistent
@@ -471,7 +491,8 @@ def _run_program(case, shift, reference=None):
     n = case["n"]
     up = case.get("up")
     observed = n + sum(case["updates"])            # the data of update_predict come after these
-    final_cutoff = t0 + observed - 1
+    late = case.get("late")
+    final_cutoff = t0 + (late["a"] + late["m"] if late else observed) - 1
     given = case.get("fh_given") or case["fh"]     # the horizon as written (possibly out of order)
     f = _build(case["fc"])
     stage = "fit" if case["fh_at"] in ("fit", "both") else "predict"
@@ -493,6 +514,10 @@ def _run_program(case, shift, reference=None):
             stage = "update%d" % i
             f.update(y_all.iloc[pos:pos + m].copy(), update_params=case["update_params"])
             pos += m
+            cutoffs.append(int(f.cutoff))
+        if late:
+            stage = "late-update"
+            f.update(y_all.iloc[late["a"]:late["a"] + late["m"]].copy(), update_params=False)
             cutoffs.append(int(f.cutoff))
         if up and reference is None:
             stage = "update_predict"
@@ -564,6 +589,9 @@ def expected_cutoffs(case, shift=0):
         if m > 0:
             c = c + m          # the batch continues the series: its last time point
         out.append(c)
+    if case.get("late"):
+        c = case["t0"] + shift + case["late"]["a"] + case["late"]["m"] - 1
+        out.append(c)          # the last time point of the batch passed last, wherever it lies
     if case.get("up"):
         out.append(c)          # update_predict restores the cutoff it started from
     return out
@@ -571,6 +599,8 @@ def expected_cutoffs(case, shift=0):
 
 def expected_index(case, shift=0):
     total = case["n"] + sum(case["updates"])
+    if case.get("late"):
+        total = case["late"]["a"] + case["late"]["m"]
     final_cutoff = case["t0"] + shift + total - 1
     # relative: cutoff + step; absolute: the requested time points (= final cutoff + r by
     # construction of the case)
@@ -618,6 +648,10 @@ def _check_run(case, out, shift, tag):
         return "cutoff-after-fit%s: %s expected last training time %s" % (
             tag, out["cutoffs"][0], want_c[0])
     for i, (g, w) in enumerate(zip(out["cutoffs"][1:], want_c[1:])):
+        if g != w and case.get("late") and i == len(case["updates"]):
+            return ("cutoff-after-late-update%s: update with data that end at %s (not after the current "
+                    "cutoff %s) gives cutoff %s, expected the last time point of the data passed" % (
+                        tag, w, want_c[i], g))
         if g != w and i >= len(case["updates"]):
             return "cutoff-after-update-predict%s: %s, expected the cutoff before the call %s" % (tag, g, w)
         if g != w:
@@ -717,6 +751,8 @@ def shrink(case):
     if case.get("up"):
         yield {k: v for k, v in case.items() if k != "up"}
     for d in _shrink_raw(case):
+        if d.get("late") and d["late"]["a"] + d["late"]["m"] > d["n"] + sum(d["updates"]):
+            continue                 # the late batch must stay inside the data seen before
         if "fh_given" in d and sorted(set(d["fh_given"])) != d["fh"]:
             g = [x for x in d["fh_given"] if x in d["fh"]]
             if sorted(set(g)) == d["fh"]:
@@ -810,7 +846,7 @@ def _cprog(case, with_fh_modes=True):
     n = case["n"]
     # with an update_predict step the values of the leaves are not recomputed in Coq (the cutoff
     # lies inside the remembered data; compared with a reference run instead)
-    leaf = case["fc"]["t"] in ("naive", "poly") and not case.get("up")
+    leaf = case["fc"]["t"] in ("naive", "poly") and not case.get("up") and not case.get("late")
     q = (lambda v: "(Some %s)" % cq([v, 4])) if leaf else (lambda v: "None")
     train = clist([q(v) for v in vals[:n]])
     ups, pos = [], n
@@ -818,6 +854,12 @@ def _cprog(case, with_fh_modes=True):
         ups.append("(%s, %s)" % (cz(case["t0"] + pos), clist([q(v) for v in vals[pos:pos + m]])))
         pos += m
     total = pos
+    if case.get("late"):
+        # a batch that lies inside the data seen so far: only its time points matter to the model of
+        # the cutoff (the merge of revised values is not modelled: values are not compared in Coq)
+        a, m = case["late"]["a"], case["late"]["m"]
+        ups.append("(%s, %s)" % (cz(case["t0"] + a), clist([q(v) for v in vals[a:a + m]])))
+        total = a + m
     if case.get("up"):
         # update_predict: a step that leaves the cutoff where it is (C03_cutoff_after_update_predict)
         ups.append("(%s, %s)" % (cz(case["t0"] + pos), clist([])))
@@ -871,6 +913,9 @@ def distribution(cases, results):
             d["fh:repeated-step"] += 1
         if c.get("up"):
             d["history:update_predict-before-predict"] += 1
+        if c.get("late"):
+            d["history:late-batch-ends-%s-the-cutoff" % (
+                "at" if c["late"]["a"] + c["late"]["m"] == c["n"] + sum(c["updates"]) else "before")] += 1
         if "err" in o:
             d["raised:%s" % o.get("stage")] += 1
     return dict(d)
